@@ -337,11 +337,12 @@ class Check:
             # schema needs discharged >= 1 for a proof claim; a broken proof step is a violation anyway
             cov["discharged_note"] = "proof step failed on this run"
             cov["discharged"] = 0
-        os.makedirs(f"{V}/evidence", exist_ok=True)
-        tmp = f"{V}/evidence/.{self.pid}.{os.getpid()}.tmp"
+        evdir = os.environ.get("VERIF_EVIDENCE_DIR", f"{V}/evidence")     # redirected only by the seeded-change evaluation (harness/seed_eval.py)
+        os.makedirs(evdir, exist_ok=True)
+        tmp = f"{evdir}/.{self.pid}.{os.getpid()}.tmp"
         with open(tmp, "w") as f:
             json.dump(ev, f, indent=1, default=str)
-        os.replace(tmp, f"{V}/evidence/{self.pid}.json")
+        os.replace(tmp, f"{evdir}/{self.pid}.json")
         shutil.rmtree(self.rundir, ignore_errors=True)
         for l in lines:
             print(l)
